@@ -68,6 +68,11 @@ Verdict(e) ==
     [] op = "ctx_add" -> CtxAddOK(Arg(e.a), Arg(e.b), e.p, e.m, e.r)
     [] op = "ctx_default" -> CtxIs(e.r, cfg.precision, cfg.mode)
     [] op = "ctx_setters" -> CtxIs(e.r, e.p, e.m)
+    [] op = "cmp" -> CmpOK(e.form, WArg(e.a), WArg(e.b), e.r)
+    [] op = "maxmin" -> MaxMinOK(e.form, WArg(e.a), WArg(e.b), e.r)
+    [] op = "sort" -> SortOK([i \in 1..Len(e.xs) |-> WArg(e.xs[i])], e.r)
+    [] op = "hash" -> HashOK(hist.hash, WArg(e.a), e.r)
+    [] op = "hashset" -> HashSetOK([i \in 1..Len(e.xs) |-> WArg(e.xs[i])], e.r)
     [] OTHER -> Bad("unknown-op")
 
 Step ==
@@ -80,9 +85,12 @@ Step ==
                      profile |-> e.profile]
           /\ hist' = EmptyHist
           /\ UNCHANGED <<regs, bad>>
+     ELSE IF e.op = "reset"
+     THEN hist' = EmptyHist /\ UNCHANGED <<cfg, regs, bad>>
      ELSE LET v == Verdict(e) IN
           /\ bad' = IF v = OK THEN bad ELSE Append(bad, <<l, v>>)
-          /\ UNCHANGED <<cfg, regs, hist>>
+          /\ hist' = IF e.op = "hash" THEN [hist EXCEPT !.hash = HashRemember(hist.hash, WArg(e.a), e.r)] ELSE hist
+          /\ UNCHANGED <<cfg, regs>>
 
 Next == Step
 Spec == Init /\ [][Next]_vars
